@@ -170,6 +170,7 @@ func (r *Reader) Read(a []byte) (n int, err error) {
 		return
 	}
 
+again:
 	err = r.context.Err()
 	if err != nil {
 		r.request(-1, -1)
@@ -200,6 +201,12 @@ func (r *Reader) Read(a []byte) (n int, err error) {
 	} else {
 		n, err = t.Pieces.ReadAt(a[:r.length-r.position],
 			r.offset+r.position)
+	}
+	if n == 0 && err == nil && len(a) > 0 {
+		// The piece is not in memory: it was evicted after we
+		// requested it.  Forget the cached request and start over.
+		r.requestedIndex = -1
+		goto again
 	}
 	if err == nil && int64(n) == r.length-r.position {
 		err = io.EOF
